@@ -367,19 +367,23 @@ class ThreadingApplication(Application):
     def _process_recv_msg(self, message: Message):
         answer = None
         try:
-            answer = self.handle_request(message)
-        except Exception as e:
-            logger.warning(f"{self} message handling failed: {repr(e)}")
             try:
-                answer = self.generate_answer(
-                    message,
-                    result_code=constants.E_RESULT_CODE_DIAMETER_UNABLE_TO_COMPLY)
-            except Exception as e2:
-                logger.warning(
-                    f"{self} failed to build an error answer: {repr(e2)}")
-        # always report back, also without an answer, so that the thread slot
-        # taken for this message is returned
-        self._resp_msg_queue.put(answer)
+                answer = self.handle_request(message)
+            except Exception as e:
+                logger.warning(f"{self} message handling failed: {repr(e)}")
+                try:
+                    answer = self.generate_answer(
+                        message,
+                        result_code=constants.E_RESULT_CODE_DIAMETER_UNABLE_TO_COMPLY)
+                except Exception as e2:
+                    logger.warning(
+                        f"{self} failed to build an error answer: {repr(e2)}")
+        finally:
+            # always report back, also without an answer and also when the
+            # handler ends with something that is not an `Exception`
+            # (SystemExit, asyncio.CancelledError), so that the thread slot
+            # taken for this message is returned
+            self._resp_msg_queue.put(answer)
 
     def handle_request(self, message: Message) -> Message | None:
         """Called by diameter node every time a request message is received.
